@@ -270,6 +270,16 @@ func genC18(tier string, run int, r *simcore.Rand) *harness.Plan {
 		maxSize = 100
 	}
 	cfg.Blobs = sim.GenBlobSpecs(r, nblobs, maxSize)
+	// one run in fifty: a batch within the documented limits (every blob well
+	// under 16 MiB, the request under 32 MiB) whose blobs add up to more
+	// than the size limit of a single blob
+	var heavy []int
+	if !many && r.Bool(0.02) {
+		for k := r.Range(3, 4); k > 0; k-- {
+			heavy = append(heavy, len(cfg.Blobs))
+			cfg.Blobs = append(cfg.Blobs, sim.BlobSpec{Size: r.Range(5<<20, 6<<20), Hash: "sha224", Kind: "raw", Salt: r.Uint64()})
+		}
+	}
 	for _, sp := range cfg.Blobs {
 		g.pool = append(g.pool, sim.Materialise(sp))
 	}
@@ -317,6 +327,14 @@ func genC18(tier string, run int, r *simcore.Rand) *harness.Plan {
 		if bigStat > 0 && len(ops) > nops/2 {
 			ops = append(ops, Op{K: "stat", Root: g.root(), B: g.subset(min(len(g.pool), 12), 0.7), N: bigStat, PF: r.Bool(0.5), Via: "POST"})
 			bigStat = 0
+		}
+	}
+	if len(heavy) > 0 {
+		hb := Op{K: "mp", Root: g.root(), B: heavy}
+		if r.Bool(0.5) {
+			ops = append([]Op{hb}, ops...)
+		} else {
+			ops = append(ops, hb)
 		}
 	}
 	p := &harness.Plan{Mode: "c18", Config: harness.MustJSON(cfg), Bubble: true}
